@@ -401,6 +401,12 @@ class Logix( Message_Router ):
                     attribute.parser.tag_type, (attribute.parser.tag_type,) ), \
                     "Tag type %d in request doesn't fit within Attribute type %d" % ( 
                         data[context].type, attribute.parser.tag_type )
+                # A compatible but different type (eg. USINT into SINT) may still carry values the
+                # Attribute's type cannot represent (eg. 200); storing one would make every later
+                # read of the Attribute fail in produce.  Refuse such values as a type mismatch.
+                if data[context].type != attribute.parser.tag_type:
+                    for value in data[context].data:
+                        attribute.parser.produce( value )
             else:
                 raise AssertionError( "Unhandled Service Reply" )
 
